@@ -154,17 +154,33 @@ func b1(w *World, r *Report) {
 		if fn == nil {
 			continue
 		}
-		st := w.findStore(fn, "recv.TotalPower", "(recv.TotalPower - "+m.removed+".Power)")
-		ss := w.findStore(fn, "recv.SelfPower", "(recv.SelfPower - "+m.removed+".Power)")
-		ok := st != nil && ss != nil && len(w.storesTo(fn, "recv.TotalPower")) == 1 && len(w.storesTo(fn, "recv.SelfPower")) == 1 &&
-			w.condCanonHolds(ss.Block(), m.removed+".IsSelfStake()", 1) && !w.condCanonHolds(st.Block(), m.removed+".IsSelfStake()", 1) && !w.condCanonHolds(st.Block(), m.removed+".IsSelfStake()", -1) &&
-			w.condCanonHolds(st.Block(), "("+m.removed+" != nil)", 1)
+		// evaluated under facts (helpers expanded): removed == nil -> nothing changes;
+		// removed != nil -> TotalPower loses removed.Power once, SelfPower loses it
+		// exactly when the removed stake is a self stake
+		ev := w.storeEvents("recv.TotalPower", "recv.SelfPower")
+		subT := "set:recv.TotalPower=(recv.TotalPower - " + m.removed + ".Power)"
+		subS := "set:recv.SelfPower=(recv.SelfPower - " + m.removed + ".Power)"
+		nonNil := AR("^"+regexp.QuoteMeta(m.removed)+"$", "!=", "^nil$")
+		isNil := AR("^"+regexp.QuoteMeta(m.removed)+"$", "==", "^nil$")
+		self := "^" + regexp.QuoteMeta(m.removed+".IsSelfStake()") + "$"
+		want := func(o outcome, evs ...string) bool {
+			if !o.complete || o.ok == 0 {
+				return false
+			}
+			for _, p := range o.okEvents {
+				if strings.Join(p, "|") != strings.Join(evs, "|") && !(len(evs) == 2 && strings.Join(p, "|") == evs[1]+"|"+evs[0]) {
+					return false
+				}
+			}
+			return true
+		}
+		ok := want(w.runUnder(fn, nil, ev, nonNil, TR(self)), subT, subS) &&
+			want(w.runUnder(fn, nil, ev, nonNil, FR(self)), subT) &&
+			want(w.runUnder(fn, nil, ev, isNil))
 		// the removed stake is returned
 		ret := false
-		for _, b := range fn.Blocks {
-			if rt, isR := lastInstr(b).(*ssa.Return); isR && b != fn.Recover && w.Canon(retResult(rt, 0)) == m.removed {
-				ret = true
-			}
+		if vals, complete := w.returnedValues(fn, 0, w.newFactEval(nil, nonNil).eval, 0); complete && len(vals) == 1 && w.Canon(vals[0]) == m.removed {
+			ret = true
 		}
 		r.Check(ok && ret, "B-1", m.name+":powers", "the removed stake's power leaves TotalPower, and SelfPower when it is a self stake; the removed stake is returned", m.name+" does not subtract exactly the removed stake's power from the totals", fnSite(w, fn))
 	}
